@@ -11,6 +11,9 @@ CHECK = {
              thorough={"checks": 20, "shards": 16, "cap": 3000}),
         unit("schedules", "vault", ["vault/c04_test.go"], "^TestVerif_C04_Schedules$",
              quick={"checks": 250, "shards": 1, "cap": 900},
-             thorough={"checks": 1500, "shards": 16, "cap": 3000}),
+             thorough={"checks": 1500, "shards": 16, "cap": 3000},
+             # lock hand-over between two blocked request goroutines is decided by the Go runtime, so a failing schedule
+             # need not fail again when rapid re-runs it; the verdict is a fact about the history that did happen
+             flaky_is_violation=True),
     ],
 }
